@@ -2,6 +2,7 @@
 //! observes into NDJSON; every judgement is a TLA+ formula evaluated by TLC (DESIGN.md §3).
 
 mod cli;
+mod extra;
 mod proj;
 mod universe;
 
@@ -152,7 +153,11 @@ fn record_elem(e: &Elem, o: &RecOpts) -> (Vec<String>, u64, u64) {
     } else {
         None
     };
+    let want_fmt = o.passes || o.parts.iter().any(|p| matches!(p.as_str(), "tree" | "flat" | "lines" | "fmt"));
     for &tab in &o.tabs {
+        if !want_fmt {
+            break;
+        }
         for &bl in &o.bls {
             for &ro in &o.ros {
                 // group widths by outcome
@@ -243,7 +248,132 @@ fn record_elem(e: &Elem, o: &RecOpts) -> (Vec<String>, u64, u64) {
             }
         }
     }
+    if !ierr && o.parts.contains("imp") {
+        let (evs, c, nt) = record_imp(e, o, &src_in, &sha_in);
+        events.extend(evs);
+        calls += c;
+        nontrivial += nt;
+    }
+    if !ierr && o.parts.contains("off") {
+        let (evs, c, nt) = record_off(e, o, &src_in, &sha_in);
+        events.extend(evs);
+        calls += c;
+        nontrivial += nt;
+    }
+    if !ierr && o.parts.contains("unit") {
+        let (evs, c, nt) = record_unit(e, o, &sha_in);
+        events.extend(evs);
+        calls += c;
+        nontrivial += nt;
+    }
     (events, calls, nontrivial)
+}
+
+/// C19: the same input formatted with import reordering off and on, at every width.
+fn record_imp(e: &Elem, o: &RecOpts, src_in: &Source, sha_in: &str) -> (Vec<String>, u64, u64) {
+    let mut events = vec![];
+    let (mut calls, mut nt) = (0u64, 0u64);
+    let imp_in = proj::imports(src_in.root());
+    if imp_in.is_empty() {
+        return (events, calls, nt);
+    }
+    for &tab in &o.tabs {
+        let mut groups: Vec<((Outcome, Outcome), Vec<usize>)> = vec![];
+        for w in widths_for(&o.widths, &e.text) {
+            calls += 2;
+            let off = format_once(&e.text, Cfg { w, tab, bl: 2, ro: false });
+            let on = format_once(&e.text, Cfg { w, tab, bl: 2, ro: true });
+            let key = (off, on);
+            if let Some(g) = groups.iter_mut().find(|g| g.0 == key) {
+                g.1.push(w);
+            } else {
+                groups.push((key, vec![w]));
+            }
+        }
+        for ((off, on), ws) in groups {
+            let (Outcome::Ok(off), Outcome::Ok(on)) = (off, on) else {
+                events.push(json!({"ev": "imp", "id": e.id, "sha": sha_in, "tab": tab, "bl": 2, "ro": true, "ws": ws,
+                                   "outcome": "fail"}).to_string());
+                continue;
+            };
+            if off != on {
+                nt += 1;
+            }
+            let s_off = Source::detached(off.clone());
+            let s_on = Source::detached(on.clone());
+            events.push(json!({
+                "ev": "imp", "id": e.id, "sha": sha_in, "tab": tab, "bl": 2, "ro": true, "ws": ws, "outcome": "ok",
+                "oerr": s_off.root().erroneous() || s_on.root().erroneous(),
+                "in": imp_in, "off": proj::imports(s_off.root()), "on": proj::imports(s_on.root()),
+                "rest_off": proj::rest_without_import_items(s_off.root()),
+                "rest_on": proj::rest_without_import_items(s_on.root()),
+            }).to_string());
+        }
+    }
+    (events, calls, nt)
+}
+
+/// C07: the directive targets of input and output.
+fn record_off(e: &Elem, o: &RecOpts, src_in: &Source, sha_in: &str) -> (Vec<String>, u64, u64) {
+    let mut events = vec![];
+    let (mut calls, mut nt) = (0u64, 0u64);
+    let din = proj::directives(src_in.root());
+    if din.is_empty() {
+        return (events, calls, nt);
+    }
+    for &tab in &o.tabs {
+        let mut groups: Vec<(Outcome, Vec<usize>)> = vec![];
+        for w in widths_for(&o.widths, &e.text) {
+            calls += 1;
+            let r = format_once(&e.text, Cfg { w, tab, bl: 2, ro: false });
+            if let Some(g) = groups.iter_mut().find(|g| g.0 == r) {
+                g.1.push(w);
+            } else {
+                groups.push((r, vec![w]));
+            }
+        }
+        for (r, ws) in groups {
+            let Outcome::Ok(out) = r else { continue };
+            if out != e.text {
+                nt += 1;
+            }
+            let s_out = Source::detached(out.clone());
+            events.push(json!({
+                "ev": "off", "id": e.id, "sha": sha_in, "tab": tab, "bl": 2, "ro": false, "ws": ws, "outcome": "ok",
+                "oerr": s_out.root().erroneous(),
+                "din": din, "dout": proj::directives(s_out.root()),
+            }).to_string());
+        }
+    }
+    (events, calls, nt)
+}
+
+/// C12 (R12b): outputs under pairs of indent units at a width where nothing needs wrapping.
+fn record_unit(e: &Elem, o: &RecOpts, sha_in: &str) -> (Vec<String>, u64, u64) {
+    let mut events = vec![];
+    let (mut calls, mut nt) = (0u64, 0u64);
+    let units: Vec<usize> = o.tabs.clone();
+    let mut outs: Vec<(usize, Vec<Value>)> = vec![];
+    for &u in &units {
+        calls += 1;
+        if let Outcome::Ok(out) = format_once(&e.text, Cfg { w: 10000, tab: u, bl: 2, ro: false }) {
+            if out != e.text {
+                nt += 1;
+            }
+            let s = Source::detached(out.clone());
+            outs.push((u, proj::unit_lines(&out, &s)));
+        }
+    }
+    for i in 0..outs.len() {
+        for j in i + 1..outs.len() {
+            // identical line lists carry no information about scaling
+            events.push(json!({
+                "ev": "unit", "id": e.id, "sha": sha_in, "tab": outs[i].0, "bl": 2, "ro": false, "ws": [10000],
+                "outcome": "ok", "u1": outs[i].0, "u2": outs[j].0, "l1": outs[i].1, "l2": outs[j].1,
+            }).to_string());
+        }
+    }
+    (events, calls, nt)
 }
 
 fn build_universe(a: &Args) -> (Vec<Elem>, BTreeMap<String, u64>) {
@@ -276,6 +406,58 @@ fn build_universe(a: &Args) -> (Vec<Elem>, BTreeMap<String, u64>) {
                 );
                 elems.extend(es);
                 stats.extend(st);
+            }
+            "nl" => {
+                // U-nl: every LF of a base element replaced by another Unicode newline
+                let defs = universe::load_defs(&vdir.join("universe"));
+                let (es, _) = universe::gap(
+                    &defs,
+                    &universe::GapOpts {
+                        seed,
+                        single: a.frac("nl-single", (1, 40)),
+                        pair: (0, 1),
+                        seed_tags: a.list("seed-tags"),
+                        trivia_tags: a.list("trivia-tags"),
+                        ctx_filter: a.list("ctx"),
+                    },
+                );
+                let mut base = es;
+                let fr = a.frac("nl-chunk", (1, 20));
+                base.extend(
+                    universe::fixture_chunks(&fixroot, 400)
+                        .into_iter()
+                        .filter(|e| universe::pick(seed, &e.id, fr.0, fr.1)),
+                );
+                let styles: [(&str, &str); 8] = [
+                    ("crlf", "\r\n"), ("cr", "\r"), ("vt", "\u{b}"), ("ff", "\u{c}"),
+                    ("nel", "\u{85}"), ("ls", "\u{2028}"), ("ps", "\u{2029}"), ("mix", ""),
+                ];
+                let mixseq = ["\r\n", "\n", "\r", "\u{2028}"];
+                for e in base {
+                    if !e.text.contains('\n') {
+                        continue;
+                    }
+                    for (name, rep) in styles {
+                        let text = if name == "mix" {
+                            let mut out = String::new();
+                            let mut k = 0;
+                            for ch in e.text.chars() {
+                                if ch == '\n' {
+                                    out.push_str(mixseq[k % mixseq.len()]);
+                                    k += 1;
+                                } else {
+                                    out.push(ch);
+                                }
+                            }
+                            out
+                        } else {
+                            e.text.replace('\n', rep)
+                        };
+                        if universe::parses(&text) {
+                            elems.push(Elem { id: format!("nl:{}:{}", name, e.id), text, tags: vec![] });
+                        }
+                    }
+                }
             }
             "file" => {
                 // NDJSON {id, text} produced elsewhere (TLC-generated behaviours etc.)
@@ -420,6 +602,110 @@ fn cmd_fmt(a: &Args) {
     }
 }
 
+fn parse_cfgs(s: &str) -> Vec<Cfg> {
+    s.split(',')
+        .map(|c| {
+            let p: Vec<&str> = c.split(':').collect();
+            Cfg { w: p[0].parse().unwrap(), tab: p[1].parse().unwrap(), bl: p[2].parse().unwrap(), ro: p[3] == "1" }
+        })
+        .collect()
+}
+
+fn cmd_ranges(a: &Args) {
+    let (elems, _) = build_universe(a);
+    let outdir = PathBuf::from(a.get("outdir", "work/ranges"));
+    fs::create_dir_all(&outdir).unwrap();
+    let shards = a.num("shards", 8) as usize;
+    let maxb = a.num("max-doc", 80) as usize;
+    let cfgs = parse_cfgs(&a.get("cfgs", "40:2:2:0"));
+    let with_trees = a.get("trees", "true") == "true";
+    let elems: Vec<Elem> = elems.into_iter().filter(|e| e.text.len() <= maxb).collect();
+    let res: Vec<(Vec<String>, u64)> = elems
+        .par_iter()
+        .map(|e| {
+            let mut evs = vec![];
+            let mut calls = 0;
+            for &c in &cfgs {
+                let (e2, n) = extra::range_events(&e.id, &e.text, c, with_trees);
+                evs.extend(e2);
+                calls += n;
+            }
+            (evs, calls)
+        })
+        .collect();
+    let mut writers: Vec<BufWriter<fs::File>> = (0..shards)
+        .map(|i| BufWriter::new(fs::File::create(outdir.join(format!("shard-{:02}.ndjson", i))).unwrap()))
+        .collect();
+    let mut inputs = BufWriter::new(fs::File::create(outdir.join("inputs.ndjson")).unwrap());
+    let (mut n, mut calls, mut nt) = (0u64, 0u64, 0u64);
+    let mut samples = vec![];
+    for (i, (evs, c)) in res.into_iter().enumerate() {
+        writeln!(inputs, "{}", json!({"id": elems[i].id, "sha": sha_hex(&elems[i].text), "text": elems[i].text})).unwrap();
+        calls += c;
+        for e in evs {
+            if e.contains("\"outcome\":\"ok\"") && e.contains("\"same\":false") {
+                nt += 1;
+                if samples.len() < 4 {
+                    samples.push(json!({"id": elems[i].id, "input": elems[i].text}));
+                }
+            }
+            writeln!(writers[i % shards], "{}", e).unwrap();
+            n += 1;
+        }
+    }
+    for w in writers.iter_mut() {
+        w.flush().unwrap();
+    }
+    inputs.flush().unwrap();
+    let s = json!({"universe": a.get("universe", "gap"), "elements": elems.len(), "events": n, "format_calls": calls,
+                   "nontrivial_events": nt, "universe_stats": {}, "samples": samples});
+    fs::write(outdir.join("summary.json"), s.to_string()).unwrap();
+    println!("{}", s);
+}
+
+fn cmd_hist(a: &Args) {
+    let (elems, _) = build_universe(a);
+    let docs: Vec<(String, String)> = elems.into_iter().take(a.num("docs", 24) as usize).map(|e| (e.id, e.text)).collect();
+    let cfgs = parse_cfgs(&a.get("cfgs", "80:2:2:0,20:4:2:0,0:2:2:1"));
+    let mut docs = docs;
+    // document pairs with identical span numbering and different attributes
+    let pairs: [(&str, &str); 4] = [
+        ("#f(a,  b)\n/* @typstyle off */\n#g(a,  b)\n", "#f(a,  b)\n/* @typstyle on  */\n#g(a,  b)\n"),
+        ("#f(a, b,\n  c)\n#let x = (1,2)\n", "#f(a,\n b,  c)\n#let x = (1,2)\n"),
+        ("$ a + b $ text /* c */ #x.y.z(1)\n", "$ a + b $ text /* d */ #x.y.z(2)\n"),
+        ("#import \"a.typ\": b, a\n- x\n  - y\n", "#import \"a.typ\": a, b\n- x\n  - z\n"),
+    ];
+    let base = docs.len();
+    for (i, (x, y)) in pairs.iter().enumerate() {
+        docs.push((format!("pair:{i}:a"), x.to_string()));
+        docs.push((format!("pair:{i}:b"), y.to_string()));
+    }
+    let outdir = PathBuf::from(a.get("outdir", "work/hist"));
+    let r = extra::record_histories(&docs, &cfgs, &outdir, a.num("hthreads", 16) as usize,
+                                    a.num("rounds", 200) as usize, a.num("seed", 0));
+    let mut n_sched = 0;
+    if let Some(sf) = a.m.get("sched") {
+        use std::io::Write as _;
+        let mut w = std::fs::OpenOptions::new().append(true).open(outdir.join("shard-00.ndjson")).unwrap();
+        let mut seq = 1_000_000u64;
+        for (k, line) in fs::read_to_string(sf).unwrap().lines().enumerate() {
+            let sched: Vec<usize> = serde_json::from_str::<Vec<usize>>(line).unwrap().into_iter().map(|t| t - 1).collect();
+            let nthreads = sched.iter().max().map(|m| m + 1).unwrap_or(0);
+            let pi = k % pairs.len();
+            let ci = k % cfgs.len();
+            let calls: Vec<(String, Cfg)> = (0..nthreads).map(|t| (docs[base + 2 * pi + (t % 2)].1.clone(), cfgs[ci])).collect();
+            let res = extra::replay_schedule(&calls, &sched);
+            for (t, r) in res.iter().enumerate() {
+                seq += 1;
+                writeln!(w, "{}", json!({"ev": "hist", "mode": "sched", "thread": t + 1, "seq": seq, "doc": base + 2 * pi + (t % 2),
+                                         "cfgid": ci, "id": docs[base + 2 * pi + (t % 2)].0, "round": k, "res": r})).unwrap();
+            }
+            n_sched += 1;
+        }
+    }
+    println!("{} schedules={}", r, n_sched);
+}
+
 fn main() {
     std::panic::set_hook(Box::new(|_| {}));
     let a = Args::parse();
@@ -433,6 +719,36 @@ fn main() {
         Some("record") => cmd_record(&a),
         Some("seeds-check") => cmd_seeds_check(&a),
         Some("fmt") => cmd_fmt(&a),
+        Some("calls-worker") => extra::calls_worker(&parse_cfgs(&a.get("cfgs", "80:2:2:0"))),
+        Some("calls") => {
+            let vdir = PathBuf::from(a.get("verif", "/verif"));
+            let fixroot = PathBuf::from(a.get("fixtures", "/repo/tests/fixtures"));
+            let o = extra::CallOpts {
+                maxlen: a.num("maxlen", 3) as usize,
+                len_extra_frac: a.frac("extra", (1, 40)),
+                seed: a.num("seed", 0),
+                mut_stride: a.num("mut-stride", 7) as usize,
+                nest_max: a.num("nest-max", 64) as usize,
+            };
+            let inputs = extra::call_inputs(&o, &vdir, &fixroot);
+            let cfg_arg = a.get("cfgs", "80:2:2:0,0:0:2:0");
+            let r = extra::record_calls(inputs, &parse_cfgs(&cfg_arg), &cfg_arg, Path::new(&a.get("outdir", "work/calls")), a.num("shards", 8) as usize);
+            println!("{}", r);
+        }
+        Some("visits") => {
+            let widths: Vec<usize> = a.get("widths", "0,40,120").split(',').map(|x| x.parse().unwrap()).collect();
+            let mut extra_inputs = vec![];
+            if a.get("with-fixtures", "true") == "true" {
+                let fixroot = PathBuf::from(a.get("fixtures", "/repo/tests/fixtures"));
+                for f in universe::fixtures(&fixroot, 1 << 30) {
+                    extra_inputs.push((f.id, f.text));
+                }
+            }
+            let r = extra::record_visits(a.num("max-depth", 48) as usize, &widths, Path::new(&a.get("outdir", "work/visits")), a.num("shards", 4) as usize, extra_inputs);
+            println!("{}", r);
+        }
+        Some("ranges") => cmd_ranges(&a),
+        Some("hist") => cmd_hist(&a),
         Some("cli") => {
             let r = cli::run_scenarios(
                 Path::new(&a.get("scen", "")),
